@@ -79,7 +79,7 @@ def canon_params(ps):
 
 
 def site_map(process):
-    """id(statement object) -> (task name, index path) for services and task calls"""
+    """id(statement object) -> (task name, index path) for services, task calls and loops"""
     m = {}
 
     def walk(ss, tname, prefix):
@@ -91,6 +91,7 @@ def site_map(process):
                 for j, c in enumerate(s.task_calls):
                     m[id(c)] = (tname, tuple(path + [j]))
             elif isinstance(s, CountingLoop):
+                m[id(s)] = (tname, tuple(path))
                 if s.parallel:
                     for j, c in enumerate(s.statements):
                         m[id(c)] = (tname, tuple(path + [j]))
@@ -392,3 +393,50 @@ def make_junk(kind, run):
 
 JUNK_KINDS = ["empty", "unknown_type", "set_place_bogus", "finish_no_data", "finish_none_data",
               "finish_wrong_key", "from_json_unknown"]
+
+
+def net_signature(run, I):
+    """canonical signature of the generated net of a (not yet started) scheduler; the same
+    shape as PFDL.NetRun.net_sig_of, with names interned by I"""
+    g = run.s.petri_net_generator
+    net = g.net
+    pidx = {u: k for k, u in enumerate(net._place.keys())}
+    tidx = {u: k for k, u in enumerate(net._trans.keys())}
+
+    def api_sig(api):
+        if hasattr(api, "service"):
+            name, site = api.service.name, run.sites.get(id(api.service), ("?", ()))
+        elif api.task_call is not None:
+            name, site = api.task.name, run.sites.get(id(api.task_call), ("?", ()))
+        else:
+            name, site = api.task.name, ("productionTask", ())
+        return [I(name), I(site[0])] + list(site[1])
+
+    def cb_sig(cb):
+        fn, a = cb.func.__name__, cb.args
+        if fn == "on_task_started":
+            return [0] + api_sig(a[0])
+        if fn == "on_task_finished":
+            return [1] + api_sig(a[0])
+        if fn == "on_service_started":
+            return [2] + api_sig(a[0])
+        if fn == "on_service_finished":
+            return [3] + api_sig(a[0])
+        if fn == "on_condition_started":
+            return [4, pidx[a[1]], pidx[a[2]]] + api_sig(a[3])
+        if fn == "on_while_loop_started":
+            return [5, pidx[a[1]], pidx[a[2]]] + api_sig(a[3])
+        if fn == "on_counting_loop_started":
+            site = run.sites.get(id(a[0]), ("?", ()))
+            return [6, pidx[a[1]], pidx[a[2]], I(site[0])] + list(site[1])
+        if fn == "on_parallel_loop_started":
+            return [7, I(a[0].counting_variable), pidx[a[3]], tidx[a[4]], tidx[a[5]], I(a[2].name)]
+        return [99]
+
+    trans = []
+    for u in net._trans.keys():
+        t = net.transition(u)
+        pre = sorted(pidx[p.name] for p, _ in t.input())
+        post = sorted(pidx[p.name] for p, _ in t.output())
+        trans.append((pre, post, [cb_sig(c) for c in g.transition_dict.get(u, [])]))
+    return (len(pidx), pidx[g.task_started_uuid], pidx[g.task_finished_uuid], trans)
